@@ -431,12 +431,14 @@ def compile_ast(
                 left_keys = [compile_col_expr(col, name_in_df) for col in left_on]
                 right_keys = [compile_col_expr(col, name_in_df) for col in right_on]
                 for i, (left_col, right_col) in enumerate(zip(left_on, right_on, strict=True)):
-                    # polars does not compare an integer with a float join key
-                    left_float = types.without_const(left_col.dtype()).is_float()
-                    right_float = types.without_const(right_col.dtype()).is_float()
-                    if left_float != right_float:
-                        left_keys[i] = left_keys[i].cast(pl.Float64)
-                        right_keys[i] = right_keys[i].cast(pl.Float64)
+                    # polars does not compare join keys of different numeric types
+                    # (Int64 with Float64, Float64 with Float32, ...)
+                    left_type = types.without_const(left_col.dtype())
+                    right_type = types.without_const(right_col.dtype())
+                    if left_type != right_type and all(t.is_int() or t.is_float() for t in (left_type, right_type)):
+                        common = pl.Float64 if left_type.is_float() or right_type.is_float() else pl.Int64
+                        left_keys[i] = left_keys[i].cast(common)
+                        right_keys[i] = right_keys[i].cast(common)
                 df = df.join(
                     right_df,
                     left_on=left_keys,
@@ -452,12 +454,12 @@ def compile_ast(
                 df = df.with_columns(__INDEX__=pl.int_range(0, pl.len(), dtype=pl.Int64))
 
             def float_operands(pred: ColFn) -> ColFn:
-                # `join_where` does not compare an integer with a float
+                # `join_where` does not compare operands of different numeric types
                 if len(pred.args) == 2:
-                    is_float = [types.without_const(arg.dtype()).is_float() for arg in pred.args]
-                    is_int = [types.without_const(arg.dtype()).is_int() for arg in pred.args]
-                    if (is_float[0] and is_int[1]) or (is_int[0] and is_float[1]):
-                        return ColFn(pred.op, *(Cast(arg, types.Float64()) for arg in pred.args))
+                    arg_types = [types.without_const(arg.dtype()) for arg in pred.args]
+                    if arg_types[0] != arg_types[1] and all(t.is_int() or t.is_float() for t in arg_types):
+                        common = types.Float64() if any(t.is_float() for t in arg_types) else types.Int64()
+                        return ColFn(pred.op, *(Cast(arg, common) for arg in pred.args))
                 return pred
 
             joined = df.join_where(
